@@ -227,7 +227,7 @@ PROPS = {
     ),
     'C09': dict(
         theorem_files=['C09', 'Judges'],
-        judge='C09', judge_module='Judge.J09', judge_fn='judge_C09',
+        judge='C09m', judge_module='Judge.JModel', judge_fn='judge_C09_m',
         cases=dict(quick=6000, thorough=60000),
         rule='base problems (CNF, unit-rich, 3-SAT, cardinality, PB; 2..8 variables quick, 2..12 thorough) x histories of 1..8 '
              'operations Solve | AppendClause(c) ending with a Solve; c = clause (20% repeated literal, 10% tautology, up to 2 '
@@ -239,7 +239,7 @@ PROPS = {
     ),
     'C10': dict(
         theorem_files=['C10', 'Judges'],
-        judge='C10', judge_module='Judge.J09', judge_fn='judge_C10',
+        judge='C10m', judge_module='Judge.JModel', judge_fn='judge_C10_m',
         cases=dict(quick=6000, thorough=60000),
         rule='base CNF problems (mixed, unit-rich, 3-SAT; 2..9 variables quick, 2..14 thorough) x 1..6 rounds of Assume+Solve; '
              'a round is: empty list, the previous list again, both polarities of a variable, the negation of the previous '
@@ -249,7 +249,7 @@ PROPS = {
     ),
     'C01': dict(
         theorem_files=['C01', 'C01s', 'GoTypes', 'Judges'],
-        judge='solve', judge_module='Judge.J01', judge_fn='judge_solve_case',
+        judge='solve_m', judge_module='Judge.JModel', judge_fn='judge_solve_case_m',
         cases=dict(quick=10000, thorough=60000),
         exhaustive=dict(quick=True, thorough=True),
         rule='cases 0..7310 = EVERY ordered list of <=2 clauses of <=3 literals over 2 variables (duplicates, tautologies, '
@@ -262,7 +262,7 @@ PROPS = {
     ),
     'C02': dict(
         theorem_files=['C02', 'C02b', 'C02s'],
-        judge='solve', judge_module='Judge.J01', judge_fn='judge_solve_case',
+        judge='solve_m', judge_module='Judge.JModel', judge_fn='judge_solve_case_m',
         cases=dict(quick=8000, thorough=80000),
         rule='random sets of 1..n+3 cardinality / PB constraints over 1..10 (quick) or 1..16 (thorough) variables built through '
              'the public constructors (AtLeast1 AtMost1 Exactly1 CardConstr, PropClause AtLeast AtMost GtEq LtEq Eq), '
@@ -274,7 +274,7 @@ PROPS = {
     ),
     'C03': dict(
         theorem_files=['C03', 'Judges'],
-        judge='C03', judge_module='Judge.J03', judge_fn='judge_C03',
+        judge='C03m', judge_module='Judge.JModel', judge_fn='judge_C03_m',
         cases=dict(quick=8000, thorough=80000),
         rule='random problems (CNF, long clauses, 3-SAT, cardinality, PB; 2..9 variables quick, 2..13 thorough) x cost function '
              'over 0..6 distinct variables, either polarity, weights 0..6 with zeros and repeats, nil weight slice, empty cost, '
@@ -300,7 +300,7 @@ PROPS = {
     ),
     'C05': dict(
         theorem_files=['C05', 'Judges'],
-        judge='C05', judge_module='Judge.J05', judge_fn='judge_C05',
+        judge='C05m', judge_module='Judge.JModel', judge_fn='judge_C05_m',
         cases=dict(quick=3000, thorough=40000),
         rule='cases = fixed empty problems (n=0..6, four front ends) then random CNF / long-clause / unit-rich / '
              'cardinality / PB problems over 1..8 (quick) or 1..11 (thorough) variables; a case is non-trivial when it '
